@@ -3498,6 +3498,13 @@ fn validate_extension_declarations(
 
         let mut decl_sectors = BitField::new();
         for sc in &decl.sectors_with_claims {
+            if decl_sectors.get(sc.sector_number) {
+                return Err(actor_error!(
+                    illegal_argument,
+                    "sector {} is declared more than once",
+                    sc.sector_number
+                ));
+            }
             decl_sectors.set(sc.sector_number);
         }
         decl_sectors |= &decl.sectors;
